@@ -29,7 +29,8 @@ def concretise(shape, kind, ctx, rng, n):
         'str_hex62': ['"' + 'ab' * 31 + '"', '"' + ctx['known_sh'][2:] + '"'],
         'str_hex66': ['"' + 'ab' * 33 + '"', '"00' + ctx['known_sh'] + '"'],
         'str_hex128': ['"' + 'cd' * 64 + '"', '"' + ctx['known_sh'] * 2 + '"'],
-        'str_nonhex': ['"' + 'zz' * 32 + '"', '"hello"', '"0x' + 'ab' * 31 + '"'],
+        # (bytes.fromhex skips white space: 64 characters that decode to fewer than 32 bytes, and 64 blanks)
+        'str_nonhex': ['"' + 'zz' * 32 + '"', '"hello"', '"0x' + 'ab' * 31 + '"', '"' + 'ab ' * 20 + 'abcd' + '"', '"' + ' ' * 64 + '"'],
         'str_empty': ['""'],
         'str_enum': ['"txid"', '"tx"', '"block_header"', '"merkle_root"', '"nonsense"'],
         'null': ['null'],
@@ -245,12 +246,25 @@ class LimitsRun(FullStack):
             self.history()
 
     def headers(self):
+        self.headers_sweep(full=True)
+        # the same around the tip after the chain has been cut back: the headers of the orphaned blocks are still in the
+        # file beyond the tip (a reorganisation only moves pointers)
+        old = self.best
+        for _ in range(7):
+            self.mine()
+        self.quiesce()
+        self.prev_best, self.best = self.best, old
+        self.quiesce()
+        if self.db.state.height == self.tree.blocks[old].height:
+            self.headers_sweep(full=False)
+
+    def headers_sweep(self, full):
         from harness.props.proofs import fold, root_of
         chain = self.tree.chain(self.best)
         H = len(chain) - 1
         hashes = [b.hash for b in chain]
-        starts = sorted({0, 1, 2, H - 2017, H - 2016, H - 2015, H - 2, H - 1, H, H + 1, H + 7})
-        counts = [0, 1, 2, 3, 2015, 2016, 2017, 5000, 10 ** 9]
+        starts = sorted({0, 1, 2, H - 2017, H - 2016, H - 2015, H - 2, H - 1, H, H + 1, H + 7}) if full else [H - 5, H - 2, H - 1, H, H + 1]
+        counts = [0, 1, 2, 3, 2015, 2016, 2017, 5000, 10 ** 9] if full else [1, 3, 6, 9, 30]
         for start in starts:
             if start < 0:
                 continue
